@@ -503,6 +503,10 @@ def c09(H):
     v = []
     if H.verdict != "quiescent":
         return liveness(H) if H.verdict == "livelock" else v
+    for o in H.ops:
+        if o["op"][0] == "get" and o["outcome"] and o["outcome"][0] == "raise":
+            v.append({"kind": "factory_call_raised", "detail": f"get_reusable_executor({o['op'][1]}) raised {o['outcome'][1]['type']}: "
+                      f"{o['outcome'][1]['str'][:200]}", "where": o["outcome"][1]["type"]})
     single = len([ops for ops in H.case["program"] if any(op[0] != "sleep" and op[0] != "open_gate" for op in ops)]) == 1 \
         and not any(op[0] == "callback" and op[2] == "get_changed" for ops in H.case["program"] for op in ops)
     created = None      # (timeout, init) the current instance was created with (sequential model)
@@ -540,6 +544,29 @@ def c09(H):
                 v.append({"kind": "previous_instance_not_shut_down", "detail": f"a new instance was returned while workers "
                           f"{g['prev_workers_alive_at_return']} of the previous one were still alive", "where": "prev_alive"})
     return v
+
+
+def c09_probe(H):
+    """The last factory call of a history is followed by a probe task. If every abrupt worker death of the history happened
+    before the long settle period that precedes that call, the call must not hand out the dead pool: the probe completes."""
+    if H.verdict != "quiescent" or 7777 not in H.futures:
+        return []
+    f = H.futures[7777]
+    ops = sorted([o for o in H.ops if o["thread"] == 0], key=lambda o: o["k"])
+    last_get = [o for o in ops if o["op"][0] == "get"][-1:]
+    settle = [o for o in ops if o["op"] == ["sleep", 50.0]]
+    if not last_get or last_get[0]["outcome"] is None or last_get[0]["outcome"][0] != "ok":
+        return []
+    deaths = [p["death"]["step"] for p in H.procs if p["death"] and p["death"].get("by") != "kill_process_tree"]
+    late = [d for d in deaths if not settle or d >= (settle[0].get("end") or 0)]
+    if late:
+        return []        # a worker died during / after the call: the probe may legitimately see the broken pool
+    o = f["outcome"]
+    if f["state"] == "FINISHED" and own_value(7777, o):
+        return []
+    return [{"kind": "factory_returned_unusable_executor", "detail": f"every worker death happened before the settle period, yet the probe task "
+             f"submitted on the executor returned by the last get_reusable_executor call ended with {o or f['state']} "
+             f"(call info: {str(last_get[0]['outcome'][1])[:300]})", "where": "probe"}]
 
 
 def c09_work(H):
@@ -584,6 +611,10 @@ def c10(H):
         v.append({"kind": "resize_hangs", "detail": f"get_reusable_executor never returned: {[(o['thread'], o['op'][1]) for o in hung]}; "
                   f"blocked {blocked_summary(H)}; crashes {H.task_crashes}", "where": where_sig(H) + _crash_sig(H)})
         return v
+    for o in H.ops:
+        if o["op"][0] == "get" and o["outcome"] and o["outcome"][0] == "raise":
+            v.append({"kind": "factory_call_raised", "detail": f"get_reusable_executor({o['op'][1]}) raised {o['outcome'][1]['type']}: "
+                      f"{o['outcome'][1]['str'][:200]}", "where": o["outcome"][1]["type"]})
     faults = any(p["death"] for p in H.procs)
     if not faults:
         for tok, f in H.futures.items():
